@@ -73,6 +73,14 @@ def cases(tier, seed):
                         if k == 1 and keys != 'asc':
                             continue
                         yield dict(kind='xform', obj=o, seq=[menu[i] for i in seq], tagged=list(tagged), keys=keys)
+    # explicit tags that are not 1..k mixed with untagged objects: a transformation addressed to an explicit tag moves the object
+    # carrying it and nothing else
+    for pattern in ((4, None, None, None), (None, 5, None, None), (7, None, 2, None), (None, None, None, 3), (2, None, 9, None), (3, 1, None, None)):
+        for ti in range(4):
+            if pattern[ti] is None:
+                continue
+            for mi in range(len(menu)):
+                yield dict(kind='tagxf', pattern=list(pattern), target=ti, op=menu[mi])
     # objects with the smallest segment counts (1..3 segments: 2..4 segment ends, a 3 x 3 coordinate array among them)
     for o in ('wire1', 'wire2', 'helix2', 'helix3', 'arc3'):
         for k in (1, 2):
@@ -265,6 +273,39 @@ def evaluate(c):
             if abs(g.r - er) > 1e-12:
                 viol.append(('API-INT-RADIUS', 'wire %d: radius %g expected %g after %s' % (gi + 1, g.r, er, c['op'])))
         canon.append('apiint|%s|%s' % (c['op'], c['tagged']))
+        nontriv.append(True)
+    elif k == 'tagxf':
+        ev += 1
+        pat, ti, (kind, val) = c['pattern'], c['target'], c['op']
+        ws = [dict(kind='wire', p1=[float(i), 0.2 * i, 1.0 + i], p2=[float(i) + 0.8, 0.2 * i + 0.3, 1.5 + i], n=3 + i, r=1e-3 * (i + 1), tag=pat[i]) for i in range(4)]
+        tr = [['scale', val, pat[ti]]] if kind == 'scale' else [[kind, 1.0, val, pat[ti]]]
+        ma, d0 = cli.build_main(cli.argv(dict(f=10.0, env='free', wires=ws), ['--excitation-pulse=1']))
+        mb, d1 = cli.build_main(cli.argv(dict(f=10.0, env='free', wires=ws, transforms=tr), ['--excitation-pulse=1']))
+        if ma is None or mb is None:
+            viol.append(('TAGXF-REJECTED', 'tags %s, %s by tag %s: %s / %s' % (pat, kind, pat[ti], d0, d1)))
+        else:
+            # objects identified by their segment count (3, 4, 5, 6), not by the tag bookkeeping
+            for n_ in range(3, 7):
+                ga = [g for g in ma.geo if len(g.segments) == n_][0]
+                gb = [g for g in mb.geo if len(g.segments) == n_][0]
+                A1, A2 = seg_arrays(ga)
+                B1, B2 = seg_arrays(gb)
+                if n_ - 3 == ti:
+                    if kind == 'rotate':
+                        Rm = geom.rotmat(val)
+                        A1, A2 = A1 @ Rm.T, A2 @ Rm.T
+                    elif kind == 'translate':
+                        A1, A2 = A1 + np.array(val), A2 + np.array(val)
+                    else:
+                        A1, A2 = A1 * val, A2 * val
+                dev = max(np.abs(B1 - A1).max(), np.abs(B2 - A2).max())
+                if dev > 1e-9 * max(1.0, np.abs(A1).max()):
+                    viol.append(('TAGXF-' + ('TARGET' if n_ - 3 == ti else 'OTHER'), 'tags %s, %s %s addressed to tag %s: wire %d (%s) is off by %.3g'
+                                 % (pat, kind, val, pat[ti], n_ - 2, 'the tagged one' if n_ - 3 == ti else 'not addressed', dev)))
+            tags = sorted(g.tag for g in mb.geo)
+            if len(set(tags)) != 4:
+                viol.append(('TAGXF-TAGS', 'tags %s: objects carry tags %s' % (pat, tags)))
+        canon.append('tagxf|%s|%d|%s' % (pat, ti, c['op']))
         nontriv.append(True)
     elif k == 'xform':
         ev += 2
